@@ -25,7 +25,7 @@ PROP = "C03"
 
 EVIDENCE = {
     "rule": "one evaluation = one simulated call history of one constitutive object (material-point machine: 6..24 trial/commit/reject operations on a batch of material points; or one FE job with the monitoring wrapper between body and material); non-trivial = at least one derivative probe at a state with non-zero committed state variables, or a reused dirty out= buffer, or a rejected trial followed by a commit; distinct = distinct (model, operation sequence shape, probe outcome classes)",
-    "probes_expected": ["fd-hessian-probe", "fd-gradient-probe", "probe-at-stored-state", "reject-then-commit", "out-buffer-dirty", "mixed-block-probe", "kink-discarded", "job-umat-call-monitored", "plastic-loading-point", "unloading-point", "hessian-first-at-new-state", "poisoned-call-in-between"],
+    "probes_expected": ["fd-hessian-probe", "fd-gradient-probe", "probe-at-stored-state", "reject-then-commit", "out-buffer-dirty", "mixed-block-probe", "kink-discarded", "job-umat-call-monitored", "plastic-loading-point", "unloading-point", "hessian-first-at-new-state", "poisoned-call-in-between", "parameters-reassigned"],
     "clauses_sampled_only": ["for stateless hyperelastic models evaluated without out= the derivative check is sampling of deformation gradients (pure function); only the call protocol (idempotence, inputs untouched, buffer reuse) is history"],
     "components": {
         "real": ["felupe.constitution (hand-coded, tensortrax, composite, mixed wrappers, small-strain framework)", "tensortrax", "numpy"],
@@ -46,6 +46,10 @@ MODELS = [
 JAX_MODELS = ["JAX:neo_hooke", "JAX:mooney_rivlin", "JAX:yeoh", "JAX:third_order_deformation", "JAX:blatz_ko", "JAX:storakers", "JAX:extended_tube", "JAX:miehe_goektepe_lulei"]
 HISTORY = ("OgdenRoxburgh", "OgdenRoxburghAD", "Plastic", "Visco", "MAD:morph", "TF:Visco", "NI:Visco", "TF:OgdenRoxburgh", "NI:OgdenRoxburgh")
 MIXED = ("ThreeField", "NearlyIncompressible", "NearlyIncompressibleAD", "TF:Visco", "NI:Visco", "TF:OgdenRoxburgh", "NI:OgdenRoxburgh")
+
+
+# hand-coded models whose parameters are public attributes read at every evaluation
+REPARAM = {"NeoHooke": ("mu", "bulk"), "NeoHookeNoBulk": ("mu",), "NeoHookeCompressible": ("mu", "lmbda"), "Volumetric": ("bulk",), "LinearElastic": ("E",)}
 
 
 def draw_model(r, name):
@@ -157,6 +161,8 @@ def generate(seed, tier, k):
         "out_dirty": r.random() < 0.5,
         # half of the points of the batch follow another path (loading and unloading points in one call)
         "hetero": r.random() < 0.4,
+        # parameter study on one object: public parameter attributes re-assigned between two operations
+        "reparam": {"at": r.randrange(1, nops), "factor": r.choice([0.5, 1.5, 2.0])} if name in REPARAM and r.random() < 0.4 else None,
         "parallel": r.random() < 0.15 and name in ("NeoHooke", "NeoHookeCompressible", "ThreeField", "Volumetric", "LinearElasticLargeStrain"),
     }
     return doc
@@ -434,6 +440,15 @@ def run_point(doc, log):
     Jbuf = np.ones((q, c))
     cold_spec = dict(spec)
     for k, op in enumerate(doc["ops"]):
+        rp = doc.get("reparam")
+        if rp and k == rp["at"]:
+            cold_spec = copy.deepcopy(cold_spec)
+            for attr in REPARAM[model]:
+                new = getattr(umat, attr) * rp["factor"]
+                setattr(umat, attr, new)
+                cold_spec["p"][attr] = new
+            pr.spec = cold_spec
+            log.count("parameters-reassigned")
         t = op["t"] * op.get("excursion", 1.0)
         if doc.get("hetero"):
             alt = (np.arange(q * c).reshape(q, c) % 2 == 1)
